@@ -751,12 +751,91 @@ pub fn long_run(emu: &mut Emu, cks: u8) -> Result<u64, String> {
     Ok(observations)
 }
 
+/// Masked window (metamorphic): the same run - clock /8, counter cleared by compare match A, CMIEA and OVIE set,
+/// TCORA small, so that an event comes every few ticks - once with the requests accepted after every charge and
+/// once with interrupts "masked" for the whole run (nothing is accepted until the end). The timer does not know
+/// whether its requests are accepted: both runs must raise the same number of requests per vector - thousands of
+/// them pending at once in the second run ("once per event", whatever the depth of the backlog).
+pub fn masked_window(emu: &mut Emu, tcora: u8, chunks: u32) -> Result<(u64, u64), String> {
+    let w = |emu: &mut Emu, a: u32, v: u8| emu.cpu.bus.write(a, v).map_err(|e| e.to_string());
+    let mut totals: [[u64; 64]; 2] = [[0; 64]; 2];
+    for pass in 0..2 {
+        prepare(emu);
+        w(emu, TCORA, tcora)?;
+        w(emu, TCORB, 0xf0)?;
+        w(emu, TCNT, 0)?;
+        w(emu, TCR, 0x40 | 0x20 | 0x08 | 0x01)?;
+        for _ in 0..chunks {
+            let cpu = &mut emu.cpu;
+            match guarded(|| hooks::update_modules(cpu, 255)) {
+                Ok(Ok(())) => {}
+                Ok(Err(e)) => return Err(format!("update_modules failed: {}", e)),
+                Err(p) => return Err(format!("update_modules panicked: {}", p)),
+            }
+            if pass == 0 {
+                for v in drain_irqs(emu)? {
+                    totals[0][v as usize] += 1;
+                }
+            }
+        }
+        if pass == 1 {
+            let pending = hooks::pending_interrupts(&emu.cpu) as u64;
+            let mut guard = 0u64;
+            while hooks::pending_interrupts(&emu.cpu) > 0 && guard < 50_000_000 {
+                // drain in slices (drain_irqs refuses more than 100000 at once)
+                emu.set_ccr(0);
+                emu.cpu.er[7] = SCRATCH_SP;
+                emu.set_pc(0xffd000);
+                match emu.try_interrupt() {
+                    EmuResult::Ok(_) => {}
+                    other => return Err(format!("interrupt poll failed: {:?}", other)),
+                }
+                let pc = emu.pc();
+                if pc >= HANDLER_BASE + 0x10 && pc < HANDLER_BASE + 0x400 && (pc - HANDLER_BASE) % 0x10 == 0 {
+                    totals[1][((pc - HANDLER_BASE) / 0x10) as usize] += 1;
+                } else {
+                    return Err(format!("interrupt poll with a pending request did not enter a handler (PC {:06x})", pc));
+                }
+                guard += 1;
+            }
+            let _ = pending;
+        }
+        cleanup(emu);
+    }
+    if totals[0] != totals[1] {
+        let v = (0..64).find(|&v| totals[0][v] != totals[1][v]).unwrap_or(0);
+        return Err(format!(
+            "TCORA {} over {} charges of 255 states: vector {} was requested {} times when every request was accepted at once, {} times when nothing was accepted until the end (requests are lost or invented while a backlog is pending)",
+            tcora, chunks, v, totals[0][v], totals[1][v]
+        ));
+    }
+    let n: u64 = totals[0].iter().sum();
+    Ok((n, totals[0][36]))
+}
+
 pub fn run(ctx: &Ctx) -> i32 {
     if let Some(v) = &ctx.replay {
         if let Some(code) = replay_fuzz(P, v) {
             return code;
         }
         let case = v.get("case").unwrap_or(v);
+        if case.get("kind").and_then(|k| k.as_str()) == Some("timer-masked-window") {
+            let mut emu = Emu::new(&ctx.base);
+            let (t, c) = (case.get("tcora").and_then(|c| c.as_u64()).unwrap_or(1) as u8, case.get("chunks").and_then(|c| c.as_u64()).unwrap_or(400) as u32);
+            return match masked_window(&mut emu, t, c) {
+                Ok(_) => {
+                    println!("replay {}: masked window passes", P);
+                    0
+                }
+                Err(m) => {
+                    let f = Failure { signature: "timer masked window".into(), detail: m, case: case.clone() };
+                    let p = write_replay(P, &f);
+                    println!("VIOLATION property={} replay={}", P, p.display());
+                    println!("  detail: {}", f.detail);
+                    1
+                }
+            };
+        }
         if case.get("kind").and_then(|k| k.as_str()) == Some("timer-long-run") {
             let mut emu = Emu::new(&ctx.base);
             return match long_run(&mut emu, case.get("cks").and_then(|c| c.as_u64()).unwrap_or(3) as u8) {
@@ -845,6 +924,23 @@ pub fn run(ctx: &Ctx) -> i32 {
     if tier == Tier::Thorough {
         fuzz_campaign(ctx, "fuzz_timer", 8, 400_000, 800, &mut stats);
     }
+    // masked windows: backlogs of about 300, 5,000 and 70,000 (thorough: 300,000) pending requests
+    let windows: Vec<(u8, u32)> = if tier == Tier::Thorough { vec![(1, 20), (2, 400), (1, 4500), (3, 30000)] } else { vec![(1, 20), (2, 400), (1, 4500)] };
+    let mstats = par_shards(ctx, windows.len(), |i| {
+        let mut emu = Emu::new(&ctx.base);
+        let mut st = Stats::new();
+        let (t, c) = windows[i];
+        match masked_window(&mut emu, t, c) {
+            Ok((n, n36)) => {
+                st.evaluations += 1;
+                st.class_n("masked window: requests pending at once at the end of the run", n);
+                st.nontrivial(key_hash(&("masked", t, c)), || json!({"masked_window_tcora": t, "charges": c, "requests": n, "compare_match_a_requests": n36}));
+            }
+            Err(m) => st.fail(Failure { signature: "timer masked window | requests lost or invented under a backlog".into(), detail: m, case: json!({"kind": "timer-masked-window", "tcora": t, "chunks": c}) }),
+        }
+        st
+    });
+    stats.merge(mstats);
     // long runs across the accumulator-width boundaries (quick: /8192 and /64; thorough: also /8)
     let divs: Vec<u8> = if tier == Tier::Thorough { vec![3, 2, 1] } else { vec![3, 2] };
     let lstats = par_shards(ctx, divs.len(), |i| {
@@ -862,7 +958,7 @@ pub fn run(ctx: &Ctx) -> i32 {
         st
     });
     stats.merge(lstats);
-    let rule = "cases = proptest-generated histories (up to 300 ops) over {n states elapse (1-255, through the run loop's update_modules), write TCR (all upper bits, clock /8, /64, /8192 or none), write TCNT, TCORA, TCORB, clear flags in TCSR}, the stated precondition constructed (TCORA != TCORB, both non-zero while a compare-match clear source is selected), each history also re-run with the same elapsed time between writes split differently (all 1-state chunks / all 255-state chunks / random). Oracle = tick-by-tick reference with an existential phase: after a clock selection the phase is any constant 0 <= p < divisor; every step splits the candidate phases by predicted tick count and keeps those that reproduce TCNT, TCSR and the multiset of interrupt requests (drained through the real poll); no candidate left = violation; both partitions must agree at every write and be explainable by a common phase. Non-trivial = history with a flag/interrupt event and >= 2 clock changes or a register write while counting; distinct by the op sequence.";
+    let rule = "cases = masked windows (the same /8 compare-match run with every request accepted at once vs nothing accepted until the end - backlogs of 300 to 70,000 pending requests: equal request counts per vector); proptest-generated histories (up to 300 ops) over {n states elapse (1-255, through the run loop's update_modules), write TCR (all upper bits, clock /8, /64, /8192 or none), write TCNT, TCORA, TCORB, clear flags in TCSR}, the stated precondition constructed (TCORA != TCORB, both non-zero while a compare-match clear source is selected), each history also re-run with the same elapsed time between writes split differently (all 1-state chunks / all 255-state chunks / random). Oracle = tick-by-tick reference with an existential phase: after a clock selection the phase is any constant 0 <= p < divisor; every step splits the candidate phases by predicted tick count and keeps those that reproduce TCNT, TCSR and the multiset of interrupt requests (drained through the real poll); no candidate left = violation; both partitions must agree at every write and be explainable by a common phase. Non-trivial = history with a flag/interrupt event and >= 2 clock changes or a register write while counting; distinct by the op sequence.";
     let mut extra = Map::new();
     extra.insert("masked_details".into(), json!(["clock selections 4-7 (external clock / cascade) are not generated", "whether the counter is cleared on the matching tick or on the following one (both readings accepted, constant per history)", "TCORA == TCORB or 0 while a compare-match clear source is selected (excluded by the property)"]));
     finish(ctx, P, stats, rule, vec!["interrupt vectors of the timer: 36 (CMIA), 37 (CMIB), 39 (OVI) as the property states".into()], extra)
